@@ -113,6 +113,10 @@ pub assume_specification [<Regions as Default>::default] () -> (r: Regions)
              ("C03",), "layout-accepted-only-if"),
             ("""first_base_of(regions@) is Some && ty_size(first_base_of(regions@)->0.type_ref, &old(semantic).type_registry) is None
                     ==> res is Ok && res->Ok_0 is None && *final(semantic) == *old(semantic)""", ("C10", "C06"), "unresolved-first-base-defers"),
+            # C10 "every type gets resolved however long the chains": a deferral has a reason that resolution removes
+            ("""res is Ok && res->Ok_0 is None ==>
+                    (first_base_of(regions@) is Some && ty_size(first_base_of(regions@)->0.type_ref, &old(semantic).type_registry) is None)
+                    || layout_defers(regions@, &final(semantic).type_registry)""", ("C10",), "defers-only-while-a-field-is-unsized"),
             ("modules_frame(old(semantic).modules@, final(semantic).modules@)", ("C05", "C10", "C12", "C14", "C15"), "keeps-modules"),
             ("reg_wf(&final(semantic).type_registry)", ("C10",), "keeps-reg-wf"),
             ("keys_kept(&old(semantic).type_registry, &final(semantic).type_registry)", ("C10", "C14"), "keys-kept"),
@@ -141,6 +145,7 @@ pub assume_specification [<Regions as Default>::default] () -> (r: Regions)
         "reg_wf(&semantic.type_registry)",
         ("vr0 is Some ==> resolved.regions@.len() > 0 && resolved.regions@[0] == vr0->0", ("C06",)),
         ("it.seq() == regions@", ("C03",)),
+        ("init_acc == init_of(vr0, &semantic.type_registry)", ("C10",)),
         ("(vftable_functions is None && first_base_of(regions@) is None) ==> init_acc == (Seq::<Region>::empty(), 0nat)", ("C03",)),
         ("modules_frame(old(semantic).modules@, semantic.modules@)", ("C05", "C10", "C14", "C15")),
         ("registry_frame(&old(semantic).type_registry, &semantic.type_registry, *resolvee_path)", ("C10", "C19")),
@@ -153,6 +158,7 @@ pub assume_specification [<Regions as Default>::default] () -> (r: Regions)
         "forall|k: int| 0 <= k < it.index() ==> #[trigger] placed_ok(it.seq(), k, resolved.regions@, pos[k], &semantic.type_registry)",
     ])
     ghost(ctx, fw, u, body_start(l1), """let ghost old_regions = resolved.regions@;
+        let ghost old_last = resolved.last_address;
         let ghost old_pos = pos;
         proof { if resolved.regions@.len() == 0 { assert(resolved.regions@ =~= Seq::<Region>::empty()); lemma_sum_empty(&semantic.type_registry); } }""")
     ghost(ctx, fw, u, after(fw, fw.let(fn, "size")), "proof { lemma_pad_size(size, &semantic.type_registry); }")
@@ -166,6 +172,18 @@ pub assume_specification [<Regions as Default>::default] () -> (r: Regions)
     st = rules.body_stmts(fw, l1)
     ghost(ctx, fw, u, st[-1]["span"][0], """let ghost before = resolved.regions@;
         proof { lemma_offset_full(before, &semantic.type_registry); }""")
+    # the deferral exit of the field itself: its type is unsized, or the running address would overflow
+    ifs_push = [n for n in fw.in_fn(fn, ("if",)) if st[-1]["span"][0] <= n["span"][0] < st[-1]["span"][1]]
+    if len(ifs_push) != 1:
+        raise rules.WeaveError("resolve_regions: the push of the field is no longer `if resolved.push(..).is_none() { return Ok(None); }`")
+    ghost(ctx, fw, u, ifs_push[0]["then_span"][0] + 1, """proof {
+                let reg = &semantic.type_registry; let k0 = it.index() as int;
+                assert(layout_fields(regions@, k0, init_of(vr0, reg), reg) == Some((old_regions, old_last as nat)));
+                assert(defers_at(regions@, k0, init_of(vr0, reg), reg));
+                assert(layout_defers(regions@, reg));
+            }""", tags=("C10",))
+    pr2 = fw.let(fn, "padding_region", 2)
+    ghost(ctx, fw, u, pr2["span"][0], "proof { lemma_pad_size((target_size - resolved.last_address) as usize, &semantic.type_registry); }")
     ghost(ctx, fw, u, body_end(l1), """proof {
             let reg = &semantic.type_registry;
             let k0 = it.index() as int;
